@@ -45,3 +45,6 @@ def run(ctx):
         # "... of ALL preceding bytes" for every sink: the rolling sum must be fed exactly the bytes the sink accepted (R07.1)
         import rules.C07 as C07
         ctx.step(C07.r07_1, ctx, A, pv)
+    # the files the CLI writes FSTs into start empty (no stale tail behind the new image)
+    from rules import cli
+    ctx.step(cli.fresh_sinks, ctx, ctx.rule('R09.9', 'CLI outputs are created empty (File::create / truncate / create_new)', floor=3))
